@@ -168,7 +168,16 @@ class Net:
                     zp = np.atleast_1d(np.array(t.zp if t.zp is not None else 0, dtype=np.int64))
                     scv = b.CreateNumpyVector(sc)
                     zpv = b.CreateNumpyVector(zp)
+                    mnv = mxv = None
+                    if getattr(self, "legacy_minmax", False) and len(sc) == 1 and t.dtype in ("int8", "uint8", "int16") and t.data is None:
+                        # the optional legacy fields min / max of the quantisation record (real range of the tensor)
+                        lo_, hi_ = {"int8": (-128, 127), "uint8": (0, 255), "int16": (-32768, 32767)}[t.dtype]
+                        mnv = b.CreateNumpyVector(np.array([(lo_ - int(zp[0])) * float(sc[0])], dtype=np.float32))
+                        mxv = b.CreateNumpyVector(np.array([(hi_ - int(zp[0])) * float(sc[0])], dtype=np.float32))
                     QuantizationParameters.QuantizationParametersStart(b)
+                    if mnv is not None:
+                        QuantizationParameters.QuantizationParametersAddMin(b, mnv)
+                        QuantizationParameters.QuantizationParametersAddMax(b, mxv)
                     QuantizationParameters.QuantizationParametersAddScale(b, scv)
                     QuantizationParameters.QuantizationParametersAddZeroPoint(b, zpv)
                     QuantizationParameters.QuantizationParametersAddQuantizedDimension(b, t.qdim)
@@ -1678,6 +1687,9 @@ def generate(family, seed):
     for _ in range(20):
         net = FAMILIES[fam](rng, kind) if kind else FAMILIES[fam](rng)
         if net is not None:
+            # one model in four carries the legacy min / max fields on its activation tensors (own generator, so that the
+            # other draws of a (family, seed) do not move)
+            net.legacy_minmax = random.Random("minmax/%s/%s" % (family, seed)).random() < 0.25
             return net
     raise RuntimeError("generator %s produced nothing" % family)
 
